@@ -74,10 +74,10 @@ def gen_case(rng, actions, max_ops, stream):
             return None
         if odd and r < 0.14:
             return []
-        n = rng.choice([1, 1, 2, 2, 3, 4])
+        n = rng.choice([1, 2, 2, 3, 3, 4, 5])
         toks = []
         for _ in range(n):
-            a = rng.choice(report_acts) if rng.random() < 0.8 else rng.randrange(len(actions))
+            a = rng.choice(report_acts) if rng.random() < 0.9 else rng.randrange(len(actions))
             if odd and rng.random() < 0.3:
                 s = actions[a]
                 toks.append(['s', rng.choice(['urn:x:' + s, s[7:], s + 'x', s.rsplit('/', 1)[-1], 'Report',
@@ -93,7 +93,8 @@ def gen_case(rng, actions, max_ops, stream):
         ops.append(['sub', q])
         if q['schema_ok'] and (q['dialect_ok'] or c['async']) and q['filter'] is not None:
             e = q['expires']
-            subs.append({'t0': now, 'dur': eff_maxd if e is None else min(e, eff_maxd), 'unsub': None})
+            subs.append({'t0': now, 'dur': eff_maxd if e is None else min(e, eff_maxd), 'unsub': None,
+                         'acts': {t[1] for t in q['filter'] if t[0] == 'a'}})
 
     def ident():
         r = rng.random()
@@ -112,34 +113,34 @@ def gen_case(rng, actions, max_ops, stream):
         if stopped:
             # after provider shutdown only requests, clock steps and housekeeping (see claim: not modelled)
             r = rng.choice([0.2, 0.3, 0.38, 0.45])
-        if r < 0.11:
+        if r < 0.08:
             add_sub()
-        elif r < 0.23:
+        elif r < 0.19:
             i = ident()
             e = dur()
             ops.append(['renew', i, e, rng.random() < 0.7])
             if i[0] == 'id' and i[1] < len(subs) and subs[i[1]]['unsub'] is None:
                 subs[i[1]].update(t0=now, dur=eff_maxd if e is None else min(e, eff_maxd))
-        elif r < 0.33:
+        elif r < 0.27:
             ops.append(['status', ident(), rng.random() < 0.7])
-        elif r < 0.41:
+        elif r < 0.34:
             i = ident()
             ops.append(['unsub', i, rng.random() < 0.7])
             if i[0] == 'id' and i[1] < len(subs) and subs[i[1]]['unsub'] is None:
                 subs[i[1]]['unsub'] = now
-        elif r < 0.6:
+        elif r < 0.5:
             rr = rng.random()
-            if rr < 0.45 and subs:
+            if rr < 0.3 and subs:
                 s = rng.choice(subs)
                 rem = s['dur'] - (now - s['t0'])
                 dt = max(0, rem + rng.choice([-2, -1, 0, 1]) * step)          # around the expiry
-            elif rr < 0.6:
+            elif rr < 0.45:
                 dt = rng.choice([7, 8, 9]) * unit // 8                          # around the housekeeping grace period
             else:
-                dt = rng.randint(0, 30) * unit // 8 + (rng.choice([0, 1, 13, 77]) if unit == 1000 else 0)
+                dt = rng.randint(0, 14) * unit // 8 + (rng.choice([0, 1, 13, 77]) if unit == 1000 else 0)
             ops.append(['adv', dt])
             now += dt
-        elif r < 0.85:
+        elif r < 0.86:
             if rng.random() < (0.3 if odd else 0.03):
                 a = rng.choice(report_acts)
                 s = actions[a]
@@ -147,7 +148,10 @@ def gen_case(rng, actions, max_ops, stream):
                                   ['s', s[11:]], ['a', rng.randrange(len(actions))]])
                 ops.append(['report', ['direct', tok], outs()])
             else:
-                ops.append(['report', ['kind', rng.choice(list(KINDS))], outs()])
+                wanted = [k for k, idx in kind_idx.items()
+                          if any(i in sb['acts'] for i in idx for sb in subs if sb['unsub'] is None)]
+                kind = rng.choice(wanted) if wanted and rng.random() < 0.8 else rng.choice(list(KINDS))
+                ops.append(['report', ['kind', kind], outs()])
         elif r < 0.95:
             ops.append(['hk'])
         elif not stopped and rng.random() < 0.3:
